@@ -682,12 +682,25 @@ impl Check for ReadCheck {
     fn sample(&self, scn: &Value) -> Value {
         abbreviate(scn)
     }
+    fn risky(&self, scn: &Value) -> bool {
+        scenario_is_risky(scn)
+    }
     fn expected_probes(&self) -> Vec<&'static str> {
         match self.id {
             "C05" => vec!["refill", "growth", "seek_in_buffer", "seek_real"],
             "C06" => vec!["refill", "growth", "growth_refused"],
             _ => vec!["refill", "growth"],
         }
+    }
+}
+
+/// an exact-count read with an astronomically large n may make a (changed) library try to
+/// allocate that much: an allocation failure aborts the process
+pub fn scenario_is_risky(scn: &Value) -> bool {
+    let ops = scn.get("ops").or_else(|| scn.get("base").and_then(|b| b.get("ops"))).or_else(|| scn.get("read").and_then(|b| b.get("ops")));
+    match ops.and_then(|o| o.as_array()) {
+        Some(a) => a.iter().any(|op| op.get("ReadSetExact").and_then(|x| x.as_array()).and_then(|x| x.get(1)).and_then(|n| n.as_u64()).map(|n| n >= 1 << 20).unwrap_or(false)),
+        None => false,
     }
 }
 
